@@ -99,7 +99,9 @@ func H20_serve_wait() {
 	code := vNondetU8("code")
 	c := &m20NetConn{in: []byte{0, 0, 0, 2, AgentMessageWait, code}}
 	vSyncReset()
-	err := ServeAgent(srv, c)
+	var err error
+	crashed := vCatch(func() { err = ServeAgent(srv, c) })
+	vAssert(!crashed, "C20.no-wait-code-crashes-the-server")
 	vAssert(err == nil, "C20.serve-wait-ok")
 	log := vSyncLog()
 	switch {
@@ -127,7 +129,8 @@ func H20_serve_broadcast() {
 	}
 	c := &m20NetConn{in: append([]byte{0, 0, 0, byte(len(frame))}, frame...)}
 	vSyncReset()
-	vCatch(func() { ServeAgent(srv, c) })
+	crashed := vCatch(func() { ServeAgent(srv, c) })
+	vAssert(!crashed, "C20.no-request-code-crashes-the-server")
 	log := vSyncLog()
 	if first < 40 {
 		// the code of every received request is broadcast before its dispatch
@@ -150,7 +153,8 @@ func H20_serve_pipelined() {
 	c := &m20NetConn{in: []byte{0, 0, 0, 1, a, 0, 0, 0, 1, b}}
 	c.bytewise = vChoose(2, "byte-by-byte") == 1
 	vSyncReset()
-	vCatch(func() { ServeAgent(srv, c) })
+	crashed := vCatch(func() { ServeAgent(srv, c) })
+	vAssert(!crashed, "C20.no-request-code-crashes-the-server")
 	log := vSyncLog()
 	n := 0
 	for i := 0; i+13 <= len(log); i++ {
